@@ -155,13 +155,13 @@ theorem obsJ_pre (o : FolderObs) (G : Folder) (h : obsR o G) : obsJ o (if G.dele
   · simp only [if_true]
     exact h.1
 
-/-- one observation of a folder for which `obsJ` holds: the reported value is the folder's visible health (0 if it is deleted), and
-`obsR` holds afterwards -/
-theorem obs_see (o : FolderObs) (G : Folder) (hreq : o.requiresScan = true) (h : obsJ o G) :
-    (o.see (if G.deleted then none else some G)).1 = (if G.deleted then FsH.none else G.visible) ∧
-    obsR (o.see (if G.deleted then none else some G)).2 G ∧
-    (o.see (if G.deleted then none else some G)).2.requiresScan = true ∧
-    (o.see (if G.deleted then none else some G)).2.name = o.name := by
+/-- one observation of a folder for which `obsJ` holds, whatever identity `i` the observer is given for it: the reported value is
+the folder's visible health (0 if it is deleted), and `obsR` holds afterwards -/
+theorem obs_see (o : FolderObs) (G : Folder) (i : Nat) (hreq : o.requiresScan = true) (h : obsJ o G) :
+    (o.see (if G.deleted then none else some (i, G))).1 = (if G.deleted then FsH.none else G.visible) ∧
+    obsR (o.see (if G.deleted then none else some (i, G))).2 G ∧
+    (o.see (if G.deleted then none else some (i, G))).2.requiresScan = true ∧
+    (o.see (if G.deleted then none else some (i, G))).2.name = o.name := by
   cases hd : G.deleted
   · simp only [Bool.false_eq_true, if_false, FolderObs.see, hreq, if_true]
     cases hs : G.scanned
@@ -169,10 +169,19 @@ theorem obs_see (o : FolderObs) (G : Folder) (hreq : o.requiresScan = true) (h :
         rcases h with h | h
         · exact h
         · rw [hs] at h; exact absurd h (by decide)
-      simp [obsR, obsJ, hc]
+      by_cases hid : o.cachedId = none ∨ o.cachedId = some i <;> simp [obsR, obsJ, hc, hid]
     · simp [obsR, obsJ]
   · simp only [if_true, FolderObs.see]
     exact ⟨trivial, ⟨h, fun hh => absurd hh (by simp [hd])⟩, hreq, trivial⟩
+
+/-- the repaired case: a folder the observer has not read its cache from (another identity) is shown with its OWN visible health -/
+theorem C14_obs_other_folder_shows_own (o : FolderObs) (G : Folder) (i j : Nat) (hreq : o.requiresScan = true)
+    (hid : o.cachedId = some j) (hne : j ≠ i) : (o.see (some (i, G))).1 = G.visible := by
+  have : ¬ (o.cachedId = none ∨ o.cachedId = some i) := by
+    rw [hid]; intro h; rcases h with h | h
+    · cases h
+    · exact hne (Option.some.inj h)
+  simp [FolderObs.see, hreq, this]
 
 /-! ### by name -/
 
@@ -306,16 +315,20 @@ theorem C14_obs_step (o : FolderObs) (n : Node) (reqs : List Op) (hn : n.folderN
   | some G =>
     simp only []
     have hJG : obsJ o G := hJ G (by unfold Node.findFolder; exact hG)
-    have hs := obs_see o G hreq hJG
-    refine ⟨?_, ?_, hs.2.2.1, hs.2.2.2⟩
-    · rw [hs.1]; cases G.deleted <;> rfl
-    · intro G' hG'
-      rw [hs.2.2.2] at hG'
+    have hs := obs_see o G ((n1.liveFolderIdx? o.name).getD 0) hreq hJG
+    have hR : ∀ o' : FolderObs, o'.name = o.name → obsR o' G → NodeR o' n1 := by
+      intro o' hnm hr G' hG'
+      rw [hnm] at hG'
       unfold Node.findFolder at hG'
       rw [hG] at hG'
       simp only [Option.some.injEq] at hG'
       subst hG'
-      exact hs.2.1
+      exact hr
+    cases hd : G.deleted
+    · simp only [hd, Bool.false_eq_true, if_false, Option.map_some, Option.getD_some] at hs ⊢
+      exact ⟨hs.1, hR _ hs.2.2.2 hs.2.1, hs.2.2.1, hs.2.2.2⟩
+    · simp only [hd, if_true, Option.map_none, Option.getD_none] at hs ⊢
+      exact ⟨hs.1, hR _ hs.2.2.2 hs.2.1, hs.2.2.1, hs.2.2.2⟩
 
 /-- what `describe_state()` shows for the folder's visible health after each step of a game -/
 def gameSeen (n : Node) (F : String) : List (List Op) → List FsH
